@@ -77,3 +77,28 @@ def selftest():
     np.random.seed(s2)
     ok = ok and float(np.random.random_sample()) == d2 and d < 0.5 < d2
     return ok
+
+
+def dynamics_controlled(repeats=12):
+    """Is the chance outcome of a step a function of np.random.seed()?  The same
+    seed is installed `repeats` times before the same stochastic action (prob
+    0.5) from the same state: if the outcome varies, the dynamics do not draw
+    from the seeded global generator and draw-steering checks are inconclusive
+    (exit 2) - they must not report violations from an uncontrolled draw.  A
+    wrong but deterministic use of the draw (e.g. an inverted comparison) stays
+    'controlled' and is left to the oracles."""
+    from . import sources
+    from .check_c20 import STAR
+    scn = sources.scenario_from_doc(STAR)
+    env = sources.make_env(scn)
+    act = next(a for a in env.action_space.actions if a.is_exploit() and tuple(a.target) == (1, 0))
+    for side in ("lo", "hi"):
+        seed, _ = seed_for(0.5, side, 1)
+        outs = set()
+        for _ in range(repeats):
+            np.random.seed(seed)
+            ns, o, r, d, info = env.generative_step(env.current_state, act)
+            outs.add(bool(info["success"]))
+        if len(outs) > 1:
+            return False
+    return True
